@@ -848,10 +848,19 @@ def rule_contfresh(ctx):
         scopes = set(loops_)  # (a comprehension that merely measures the variations is not the scoring scope)
     need(len(scopes) == 1, R, "continuity: loop over the metrical variations not found")
     L = next(iter(scopes))
+    def own_slot(k):
+        """the loop's running index (enumerate) of loop L: one slot per variation"""
+        return (k.op == "idx" and k.a[0] == L) or (k.op == "sub" and tm.is_const(k.a[1], 0) and k.a[0].op == "iter" and len(k.a[0].a) > 1 and k.a[0].a[1] == L and k.a[0].a[0].op == "call" and call_name(k.a[0].a[0]) == "builtins.enumerate")
+
     written = {}
+    per_variation = {}
     for m in s.by_kind("mutate"):
         if m.how == "setitem" and m.root and any(x[0] == "loop" and x[1] == L for x in m.pc):
             written.setdefault(m.root, m)
+            per_variation[m.root] = per_variation.get(m.root, True) and m.key is not None and own_slot(m.key)
+    # result vectors filled at [v] (one entry per metrical variation) are not work buffers
+    for nm in [n_ for n_, pv in per_variation.items() if pv]:
+        written.pop(nm, None)
     need(len(written) >= 2, R, "continuity: work buffers not found")
     helpers = [ctx.program.func(h).node for h in sorted(set(s.inlined)) if ctx.program.has_func(h)]
     allocs = {}
@@ -906,6 +915,8 @@ def rule_impulsetrain(ctx):
                 o = o.a[0]
             else:
                 break
+        if o.op == "sub" and o.a[1].op == "const" and o.a[0].op == "call" and call_name(o.a[0]) == "np.zeros":
+            o = o.a[0]  # one row of a zero buffer that holds both trains
         good = o.op == "call" and call_name(o) in ("np.zeros",) and len(stores) == 1 and stores[0].a[1] == "setitem" and tm.is_const(stores[0].a[3], 1)
         yield ob(R, f, "beat.p_score:train@%d" % i, good, "impulse train %d is np.zeros(..) with train[beat samples] = 1" % i if good else "impulse train %d is %s: not a 0/1 indicator of the beat samples (coincident beats are counted, not marked)" % (i, tm.show(a, 3)), node=cor[0].node)
 
